@@ -132,7 +132,7 @@ def crosscheck(cells):
                         % (shape, defs))
 
 
-GENERIC_STAGES = ("transport", "status", "ctype", "utf8", "xml", "envelope",
+GENERIC_STAGES = ("transport", "status", "ctype", "header", "utf8", "xml", "envelope",
                   "error", "fuzz")
 
 
@@ -321,14 +321,15 @@ def run(ctx):
     # quick: all pinned leaks together + the two leaks found by the latest
     # extension of the response universe, each alone; thorough: every leak
     # alone
-    leaks = ["FirstObjectOnly", "QrcBeforeParams"]
+    leaks = ["FirstObjectOnly", "QrcBeforeParams", "RespTimeInt"]
     if not quick:
         leaks = ["ErrCodeInt", "IntInf", "NullInArray", "ArraySizeInt",
                  "CimvalueRaw", "RetvalParamtypeKey", "PullEmptyResponse",
                  "EnumInstNoPath", "ResultIndexing", "PullNoTypeCheck",
                  "ExpatEncoding", "RedirectUrl", "Recursion", "MethodMisc",
                  "EmbTypes", "RealBigInt", "HexLongMsg", "ParamNamedElem",
-                 "FirstObjectOnly", "QrcBeforeParams", "TypeNameTrail"]
+                 "FirstObjectOnly", "QrcBeforeParams", "TypeNameTrail",
+                 "RespTimeInt"]
         ctx.tlc("RespPipelineImpl", "RespPipelineImplWide.cfg",
                 label="guarded pipeline refines the requirement, wide pairs",
                 timeout=1700)
